@@ -139,6 +139,14 @@ structure Frame (β : Inj N) (σ σ' s s' : State N) : Prop where
   fL : ∀ (a : Nat) v, σ.closures[a]? = some v → s.closures[a]? = some v
   fR : ∀ (b : Nat) v, σ'.closures[b]? = some v → s'.closures[b]? = some v
 
+/-- the CONTENT pins (tables / cells, both sides) are the same: what every generic step satisfies (only the
+consumer's own pinned allocations / writes change them), so that the consumer's invariant may say which of its
+private objects are NOT pinned (needed for `SRel.privSet…` on a private object that exists from the start) -/
+def Inj.samePins (β β' : Inj N) : Prop :=
+  β'.pinTL = β.pinTL ∧ β'.pinCL = β.pinCL ∧ β'.pinTR = β.pinTR ∧ β'.pinCR = β.pinCR
+
+theorem Inj.samePins.refl (β : Inj N) : β.samePins β := ⟨rfl, rfl, rfl, rfl⟩
+
 theorem Frame.refl (β : Inj N) (σ σ' : State N) : Frame β σ σ' σ σ' :=
   ⟨fun _ _ _ _ h => h, fun _ _ _ _ h => h, fun _ _ _ _ h => h, fun _ _ _ _ h => h, fun _ _ h => h, fun _ _ h => h⟩
 
@@ -171,7 +179,7 @@ structure Cx where
   in every `SRel` state pair; generic code preserves it because it only changes related objects (`stable`);
   a leaf that writes private objects re-establishes it (`SRel.privSet…`). -/
   I : (N : NumOps) → Inj N → State N → State N → Prop := fun _ _ _ _ => True
-  stable : ∀ (N : NumOps) (β β' : Inj N) (σ σ' s s' : State N), β.ext β' → Frame β σ σ' s s' →
+  stable : ∀ (N : NumOps) (β β' : Inj N) (σ σ' s s' : State N), β.ext β' → β.samePins β' → Frame β σ σ' s s' →
     I N β σ σ' → I N β' s s' := by intros; trivial
 
 /-- the always-watched names are globals (what the theorems that start from the EMPTY environment ask) -/
